@@ -100,6 +100,7 @@ def body_asm_side(env):
         rec0 = {}
         asms = []
         Ts = []
+        events = []
         for a, asm in enumerate(r.assemblies):
             reg = asm.active_region
             ncell = reg.temp['duct_surf'].shape[-1]
@@ -115,8 +116,21 @@ def body_asm_side(env):
 
             def step0(gap_temp, gap_htc, adiabatic=False, _a=a):
                 rec0[_a] = (gap_temp, gap_htc)
-            asms.append(StubSelf(duct_outer_surf_temp=ts, active_region=StubSelf(_map=reg._map), calculate=calc, step0=step0,
-                                 check_region_update=lambda z: False, write=lambda *x, **k: None))
+            st = StubSelf(duct_outer_surf_temp=ts, active_region=StubSelf(_map=reg._map), calculate=calc, step0=step0,
+                          check_region_update=lambda z: False, write=lambda *x, **k: None)
+            if env.params.get('region_change') and a == 0:
+                # assembly 0 enters a new axial region after this step: the wall of the new region (other temperatures) must
+                # not be what the gap is credited with for *this* step, and the new region is activated with the new gap level
+                ts_new = np.array([env.real('Tsurf_newregion_%d' % k, lo=200, hi=3000) for k in range(ncell)], dtype=object)
+                if env.mode == 'replay':
+                    ts_new = ts_new.astype(float)
+
+                def upd(z_, gap_temp, gap_htc, adiabatic=False, _st=st, _new=ts_new):
+                    events.append(('update_region', np.array(gap_temp, dtype=object if env.mode == 'sym' else float)))
+                    _st.duct_outer_surf_temp = _new
+                st.check_region_update = lambda z: True
+                st.update_region = upd
+            asms.append(st)
         r2 = copy.copy(r)
         r2.core = c
         r2.assemblies = asms
@@ -126,7 +140,21 @@ def body_asm_side(env):
         r2._options['ebal'] = True
         r2.z = np.array([0.0, 1.0, 2.0])
         rm.Reactor.axial_step0(r2)            # duct temperatures before the sweep: same hand-over of the gap state
+        real_gap = c.calculate_gap_temperatures
+
+        def gap_step(*a_, **k_):
+            events.append(('gap-step', None))
+            return real_gap(*a_, **k_)
+        c.calculate_gap_temperatures = gap_step
         rm.Reactor.axial_step(r2, 1.0, 1.0, 0)
+        if env.params.get('region_change'):
+            env.holds('the gap is advanced with the walls of the regions that made the step; the next region is activated afterwards',
+                      [e[0] for e in events] == ['gap-step', 'update_region'], key='region_change_before_gap_step')
+            if events and events[-1][0] == 'update_region':
+                new_gap = c.adjacent_coolant_gap_temp(0)
+                for k in range(len(new_gap)):
+                    env.eq('the new region of assembly 0 is activated with the gap temperatures of the new level (gap cell %d)' % k,
+                           events[-1][1][k], new_gap[k], key='region_change_before_gap_step')
         for a in rec:
             for k in range(len(rec[a][0])):
                 env.eq('assembly %d cell %d: axial_step0 hands over the same gap temperature as the first step' % (a, k), rec0[a][0][k], rec[a][0][k],
@@ -260,6 +288,9 @@ def instances(tier):
     for l in lays:
         inst.append(dict(label='gap-step[%s]' % l, body=body_gap, params={'layout': l}, timeout_ms=240000))
         inst.append(dict(label='assembly-side[%s]' % l, body=body_asm_side, params={'layout': l}, timeout_ms=240000))
+    for l in ('two-a2-a3', 'three-a3-dd-u6'):
+        inst.append(dict(label='assembly-side[%s,assembly 0 changes region after the step]' % l, body=body_asm_side,
+                         params={'layout': l, 'region_change': True}, timeout_ms=240000))
     inst.append(dict(label='adiabatic[one-a2]', body=body_adiabatic, params={'layout': 'one-a2'}))
     for ad in (False, True):
         inst.append(dict(label='region-change[adiabatic=%s]' % ad, body=body_update_region, params={'adiabatic': ad}))
